@@ -169,15 +169,18 @@ Definition reset_frags (d : dstate) : dstate := mkD [] 0 (dnext d) (dbuf d) (dbu
 Definition clear_buf (d : dstate) : dstate := mkD (dfrags d) (dsize d) (dnext d) [] 0 0.
 
 (* joinFragments: ret := make([]byte, size); n += copy(ret[n:], p).  ret[n:] is checked. *)
-Fixpoint join_aux (frags : list bytes) (size n : N) (acc : bytes) : option bytes :=
+Fixpoint join_aux (frags : list bytes) (size n : N) : option bytes :=
   match frags with
-  | [] => Some (acc ++ nrep 0 (size - n))
+  | [] => Some (nrep 0 (size - n))
   | p :: t =>
       if size <? n then None else
       let c := ntake (size - n) p in
-      join_aux t size (n + nlen c) (acc ++ c)
+      match join_aux t size (n + nlen c) with
+      | Some r => Some (c ++ r)
+      | None => None
+      end
   end.
-Definition join (frags : list bytes) (size : N) : option bytes := join_aux frags size 0 [].
+Definition join (frags : list bytes) (size : N) : option bytes := join_aux frags size 0.
 
 Definition tu_size (obus : list bytes) : N := nlen (concat obus).
 
@@ -332,6 +335,34 @@ Fixpoint get_frames (fuel : list N) (k : N) (l : list N) : option (list (list by
     end
   end.
 
+(* packets of a decode case; like GVL.Rtp.get_pkts but linear in the length of the line (the
+   near-cap histories are lines of several million tokens) *)
+Fixpoint take_n (n : N) (l : list N) {struct l} : option (list N * list N) :=
+  match l with
+  | [] => if n =? 0 then Some ([], []) else None
+  | x :: t =>
+    if n =? 0 then Some ([], l) else
+    match take_n (N.pred n) t with
+    | Some (a, r) => Some (x :: a, r)
+    | None => None
+    end
+  end.
+
+Fixpoint get_pkts_lin (fuel : list N) (k : N) (l : list N) : option (list packet) :=
+  if k =? 0 then Some [] else
+  match fuel with
+  | [] => None
+  | _ :: fuel' =>
+    match l with
+    | s :: t :: m :: n :: r =>
+      match take_n n r with
+      | Some (pl, r') => option_map (cons (mkPkt s t (getb m) pl)) (get_pkts_lin fuel' (N.pred k) r')
+      | None => None
+      end
+    | _ => None
+    end
+  end.
+
 (* case 1: param max seq nframes {nunits {len bytes}}  -> all packets of all frames, or 77
    case 2: param npackets {pkt}                        -> per packet result; retained bytes, slices *)
 Definition run_g (fx dfx : bool) (c : list N) : list N :=
@@ -346,9 +377,9 @@ Definition run_g (fx dfx : bool) (c : list N) : list N :=
           end
       | None => bad_case
       end
-  | 2 :: _ :: t =>
-      match get_pkts t with
-      | Some (ps, _) =>
+  | 2 :: _ :: k :: t =>
+      match get_pkts_lin c k t with
+      | Some ps =>
           let '(d, rs) := dec_run_g dfx dinit ps in
           concat (map put_res rs) ++ [fst (retained d); snd (retained d)]
       | None => bad_case
